@@ -123,7 +123,7 @@ from specs.hash import u32at
 
 GnuParams = Rec(nbuckets=U32, symoffset=U32, bloom_size=U32, bloom_shift=U32, bloom=ListOf(U64), buckets=ListOf(U32))
 GnuTabT = Obj('GNUHashTable', elffile=ELFFileT(), _symboltable=Any, params=GnuParams, _wordsize=Const(4),
-              _xwordsize=OneOf(4, 8), _chain_pos=Nat)
+              _xwordsize=Choice(4, 8), _chain_pos=Nat)
 
 
 @contract("elftools/elf/hash.py", "GNUHashTable.get_number_of_symbols", props=["C03", "C09", "C19"])
